@@ -88,18 +88,21 @@ FLOORS = {
                            "precompiled_site_abuts_next_tag_line": 50}},
     # thorough: 960k evaluations / 913k distinct in 281 s (count-bounded) at load
     # ~1x, 417k / 403k (time-boxed) at load ~4x; floors = 1/4 of the latter
-    "thorough": {"evaluations": 100000, "distinct": 95000,
-                 "counters": {"runtime_line_checks": 65000, "syntax_line_checks": 32000,
-                              "fs_filename_checks": 11000, "async_cases": 32000,
-                              "site_after_stripped_newlines": 24000, "crossed_template": 44000,
-                              "multiline_before_site": 95000, "const_site_checks": 15000,
-                              "finalize_env_cases": 12000, "load_checks": 100000,
-                              "missing_filter_in_conditional_site_checks": 6000,
-                              "missing_test_in_conditional_site_checks": 4000,
-                              "precompiled_line_checks": 32000, "precompiled_dir_line_checks": 10500,
-                              "precompiled_zip_line_checks": 21000,
-                              "precompiled_filename_checks": 32000,
-                              "precompiled_site_abuts_next_tag_line": 4000}},
+    # wave 8: a third of the runtime cases now goes through compile_templates + ModuleLoader
+    # (slower per case); a thorough run beside four other thorough sweeps (load ~5x) gave
+    # site_after_stripped_newlines=23546 against the old floor of 24000 -> floors halved
+    "thorough": {"evaluations": 50000, "distinct": 48000,
+                 "counters": {"runtime_line_checks": 32000, "syntax_line_checks": 16000,
+                              "fs_filename_checks": 5500, "async_cases": 16000,
+                              "site_after_stripped_newlines": 12000, "crossed_template": 22000,
+                              "multiline_before_site": 48000, "const_site_checks": 7500,
+                              "finalize_env_cases": 6000, "load_checks": 50000,
+                              "missing_filter_in_conditional_site_checks": 3000,
+                              "missing_test_in_conditional_site_checks": 2000,
+                              "precompiled_line_checks": 16000, "precompiled_dir_line_checks": 5000,
+                              "precompiled_zip_line_checks": 10000,
+                              "precompiled_filename_checks": 16000,
+                              "precompiled_site_abuts_next_tag_line": 2000}},
 }
 
 SITE = "\x00SITE\x00"
